@@ -41,6 +41,8 @@ func init() {
 				{"", "hostport", "XHostport", nil, []string{"p0:Bytes:[]"}, "(Bytes × Bytes)"},
 				// digit loop: at most 19 digits; padding loop: at most 128 stores before the bounds check panics
 				{"", "atoi", "XAtoi", []string{"20", "130"}, []string{"p0:Bytes:[]", "p1:Int:0", "p2:Int:0"}, "Unit"},
+				// the format lexer: a `range` loop over the runes (no fuel), a closure that is a pure predicate
+				{"", "lex", "XLex", nil, []string{"p0:(List Int):[]"}, "(Int × Int)"},
 			}},
 		})
 
